@@ -163,8 +163,11 @@ def cases(rng, tier):
         yield {"kind": "escape", "x": bytes(t)}
     # 2 UTF-8 surrogateescape: lead bytes of every class, boundary continuation bytes
     alpha8 = [0x41, 0x80, 0xBF, 0xC1, 0xC2, 0xE0, 0xED, 0xA0, 0x9F, 0xF0, 0xF4, 0x90, 0x8F, 0xF5]
-    for t in _words(alpha8, 3 if quick else 4):
+    for t in _words(alpha8, 3):
         yield {"kind": "utf8", "x": bytes(t)}
+    if not quick:
+        for t in itertools.product([0x41, 0x80, 0xBF, 0xC2, 0xE0, 0xED, 0xA0, 0xF0, 0xF4, 0x90], repeat=4):
+            yield {"kind": "utf8", "x": bytes(t)}
     for _ in range(400 if quick else 6000):
         s = "".join(chr(rng.choice([0x41, 0x7F, 0x80, 0x7FF, 0x800, 0xD7FF, 0xE000, 0xFFFF, 0x10000, 0x10FFFF,
                                     rng.randrange(0x110000)])) for _ in range(rng.randint(1, 6)))
@@ -212,11 +215,11 @@ def cases(rng, tier):
             yield {"kind": "url", "loc": cps(loc), "branch": None, "ref": r}
     yield {"kind": "url", "loc": cps("git://h/r"), "branch": cps("x"), "ref": b"y"}
     yield {"kind": "url", "loc": cps("git://h/r"), "branch": [0xDC80], "ref": None}
-    for _ in range(1500 if quick else 40000):
+    for _ in range(1500 if quick else 15000):
         yield _rand_url(rng)
     for u in BACK_FIXED:
         yield {"kind": "back", "loc": cps(u)}
-    for _ in range(800 if quick else 20000):
+    for _ in range(800 if quick else 8000):
         yield {"kind": "back", "loc": cps(_rand_bzr_url(rng))}
     # 7 real git branches
     names = ["origin", "foo", "master"]
@@ -228,7 +231,7 @@ def cases(rng, tier):
         for name in names:
             yield {"kind": "parent", "name": name, "loc": cps(loc)}
             k += 1
-    for _ in range(30 if quick else 600):
+    for _ in range(30 if quick else 300):
         c = _rand_url(rng)
         import breezy.git  # noqa
         from breezy.git.urls import git_url_to_bzr_url
